@@ -1,6 +1,7 @@
 import LexgenModel.Model.Compile
 import LexgenModel.Exec.Bisim
 import LexgenModel.Exec.MachineWF
+import LexgenModel.Model.TableGen
 /-!
 # `lexmodel`: line-protocol driver of the executable model (correspondence side; no proofs here)
 -/
@@ -351,6 +352,39 @@ def stageChecks (prog : String) (pd : ParsedDef) (dump : Dump) : List String := 
     out := out ++ [stats]
     return out
 
+/-! ## Component protocols -/
+
+def showRangeMap (m : RangeMap (List Nat)) : String :=
+  " ".intercalate (m.map fun (s, e, v) => s!"{s} {e} [{",".intercalate (v.map toString)}]")
+
+/-- `RM i s e v ; m k s e v .. ; r k s e ..` -/
+def rangeMapLine (line : String) : String := Id.run do
+  let mut m : RangeMap (List Nat) := []
+  let mut outs : List String := []
+  for op in line.splitOn ";" do
+    match words op with
+    | ["i", s, e, v] => m := RangeMap.insert setUnion m (toNat! s) (toNat! e) [toNat! v]
+    | "m" :: _k :: r =>
+      let rec triples : List String → RangeMap (List Nat)
+        | a :: b :: c :: r => (toNat! a, toNat! b, [toNat! c]) :: triples r
+        | _ => []
+      m := RangeMap.insertRanges setUnion m (triples r)
+    | "r" :: _k :: r =>
+      let rec pairs : List String → RangeMap Unit
+        | a :: b :: r => (toNat! a, toNat! b, ()) :: pairs r
+        | _ => []
+      m := RangeMap.removeRanges m (pairs r)
+    | [] => continue
+    | _ => outs := outs ++ ["BAD"]; continue
+    outs := outs ++ [showRangeMap m]
+  return " ; ".intercalate outs
+
+/-- `TG b1 b2 ..`: predicate that flips at every boundary (false below the first) -/
+def tableGenLine (toks : List String) : String :=
+  let bs := toks.map toNat!
+  let f : Nat → Bool := fun c => (bs.filter (· ≤ c)).length % 2 == 1
+  " ".intercalate ((generateRanges f charMax).map fun (s, e) => s!"{s} {e}")
+
 /-! ## Main loop -/
 
 def splitOnBar (line : String) : List (List String) := (line.splitOn ";").map words
@@ -420,6 +454,10 @@ def main : IO Unit := do
         modelTried := true
         model := match compileLexer pd.items with | .ok c => some c | .error _ => none
       for l in runCase prog pd dump model line do stdout.putStrLn l
+    else if line.startsWith "RM " then
+      stdout.putStrLn ("RM " ++ rangeMapLine (line.drop 3).toString)
+    else if line.startsWith "TG" then
+      stdout.putStrLn ("TG " ++ tableGenLine (words (line.drop 2).toString))
     else if line = "COMPILE" then
       -- model verdict on the definition alone (static checks)
       match compileLexer pd.items with
